@@ -1,28 +1,87 @@
 //go:build verif
 
 // Contracts checked by /verif/govc (comment-only; compiled only with -tags verif).
+// Soundness mode (see frontend/contracts_verif.go): every clause holds for every assignment of the
+// wires satisfying the constraints the function emits, whatever the hints return.
 package bits
 
-// Without options ToBinary returns the canonical decomposition of v on FieldBitLen() boolean wires
-// (bits are hinted, each is asserted boolean, the recomposition is asserted equal to v and the bits are
-// compared with p-1). ASSUMED for now: the body (toBinary) is not yet verified against this contract.
-//@ contract ToBinary
-//@   trusted
-//@   pure
-//@   ensures len(opts) == 0 ==> len(result) == fieldBits() && fresh(result) && allBool(result) && bsum(result) == ival(den(v))
-//   with WithNbDigits(n), n > 0: n boolean wires whose sum is v over the integers, hence v < 2^n
-//@   ensures len(opts) == 1 && optNbDigits(opts[0]) > 0 ==> len(result) == optNbDigits(opts[0]) && fresh(result) && allBool(result) && bsum(result) == ival(den(v)) && fits(ival(den(v)), optNbDigits(opts[0]))
-
-// Without options FromBinary returns sum_k digits[k]*2^k (as a field element).
-//@ contract FromBinary
-//@   trusted
-//@   pure
-//@   ensures len(opts) == 0 ==> stable(result) && den(result) == ofInt(bsum(digits))
-
-// The option closures carry their argument: optNbDigits(o) is the digit count a WithNbDigits option sets
-// (definitional; the closure body is `opt.NbDigits = nbDigits` and is not traced by the verifier).
+// ---- options: closures over the unexported config. optNbDigits(o) is the digit count a WithNbDigits
+// option sets (0 for the other options); definitional, the closure bodies are not traced.
 //@ spec func optNbDigits(o BaseConversionOption) int
 //@ contract WithNbDigits
 //@   trusted
 //@   pure
 //@   ensures optNbDigits(result) == nbDigits
+//@ contract functype BaseConversionOption
+//@   assigns *opt
+//@   ensures optNbDigits(self) > 0 ==> result == nil && opt.NbDigits == optNbDigits(self) && opt.UnconstrainedOutputs == old(opt.UnconstrainedOutputs) && opt.UnconstrainedInputs == old(opt.UnconstrainedInputs) && opt.omitModulusCheck == old(opt.omitModulusCheck)
+
+// MustBeLessOrEqCst (implemented by both builders): the bits are boolean and their sum is <= bound
+//@ contract iface bitsComparatorConstant.MustBeLessOrEqCst
+//@   pure
+//@   ensures allBool(aBits) && bsum(aBits) <= *bound
+
+// ---- toBinary. okOpts: no option, or exactly one WithNbDigits(n) option with n > 0 (the cases under contract).
+// nb(result) = min(len(result), FieldBitLen()) is the number of hinted bits; the rest is zero padding.
+//@ spec func okOpts(opts []BaseConversionOption) bool = len(opts) == 0 || (len(opts) == 1 && optNbDigits(opts[0]) > 0)
+//@ spec func nb(r []Variable) int = len(r) < fieldBits() ? len(r) : fieldBits()
+//@ contract toBinary
+//@   props C05
+//@   assigns api
+//@   requires api != nil
+//@   ensures @len (len(opts) == 0 ==> len(result) == fieldBits()) && (len(opts) == 1 && optNbDigits(opts[0]) > 0 ==> len(result) == optNbDigits(opts[0])) && fresh(result)
+//@   ensures @elem-bool okOpts(opts) ==> forall k int :: 0 <= k && k < nb(result) ==> isBool(den(result[k]))
+//@   ensures @elem-zero okOpts(opts) ==> forall k int :: nb(result) <= k && k < len(result) ==> den(result[k]) == f0
+//@   ensures @recompose okOpts(opts) ==> den(v) == fsum(result, nb(result))
+//@   ensures @canonical okOpts(opts) && len(result) >= fieldBits() ==> allBool(result[:nb(result)]) && bsum(result[:nb(result)]) <= fieldP() - 1
+//@   lemma @fsum1 fsum(result, 1) == den(result[0])
+//@   loop 1 invariant @no-opts rangeindex < 0 ==> cfg.NbDigits == fieldBits() && !cfg.UnconstrainedOutputs && !cfg.omitModulusCheck
+//@   loop 1 invariant @nbdigits rangeindex == 0 && optNbDigits(opts[0]) > 0 ==> cfg.NbDigits == optNbDigits(opts[0]) && !cfg.UnconstrainedOutputs && !cfg.omitModulusCheck
+//@   loop 2 invariant @acc 0 <= i && i <= cfg.NbDigits && c != nil && *c == pow2(i) && den(Σbi) == fsum(bits, i)
+//@   loop 2 invariant @bits !cfg.UnconstrainedOutputs ==> forall k int :: 0 <= k && k < i ==> isBool(den(bits[k]))
+//@   loop 2 lemma @fsum0 fsum(bits, 0) == f0
+//@   loop 2 lemma @unfold fsum(bits, i + 1) == fadd(fsum(bits, i), fmul(den(bits[i]), ofInt(pow2(i))))
+//@   loop 3 invariant @zeros forall k int :: cfg.NbDigits <= k && k < i ==> den(bits[k]) == f0
+//@   loop 3 invariant @shape cfg.NbDigits <= fieldBits() && cfg.NbDigits <= len(bits) && (len(bits) > cfg.NbDigits ==> cfg.NbDigits == fieldBits()) && fresh(bits)
+//@   loop 3 invariant @canonical !cfg.UnconstrainedOutputs && !cfg.omitModulusCheck && cfg.NbDigits >= fieldBits() ==> allBool(bits[:cfg.NbDigits]) && bsum(bits[:cfg.NbDigits]) <= fieldP() - 1
+//@   loop 3 invariant @kept den(v) == fsum(bits, cfg.NbDigits) && (!cfg.UnconstrainedOutputs ==> forall k int :: 0 <= k && k < cfg.NbDigits ==> isBool(den(bits[k])))
+
+// ---- ToBinary
+// Without options: the canonical decomposition of v on FieldBitLen() boolean wires.
+// With WithNbDigits(n), n > 0: n boolean wires (zero above the field width) whose sum is v over the integers.
+// The lemma instances tie the field-valued sum to the integer bit sum for boolean digits.
+//@ contract ToBinary
+//@   props C05
+//@   assigns api
+//@   requires api != nil
+//@   lemma @all-bool (forall k int :: 0 <= k && k < nb(result) ==> isBool(den(result[k]))) ==> allBool(result[:nb(result)])
+//@   lemma @int-sum allBool(result[:nb(result)]) ==> fsum(result, nb(result)) == ofInt(bsum(result[:nb(result)])) && fits(bsum(result[:nb(result)]), nb(result))
+//@   lemma @padding allBool(result[:nb(result)]) && (forall k int :: nb(result) <= k && k < len(result) ==> den(result[k]) == f0) ==> allBool(result) && bsum(result) == bsum(result[:nb(result)])
+//@   ensures @default-len len(opts) == 0 ==> len(result) == fieldBits() && fresh(result)
+//@   ensures @default-bool len(opts) == 0 ==> allBool(result)
+//@   ensures @default-sum len(opts) == 0 ==> bsum(result) == ival(den(v))
+//@   ensures @nbdigits-len len(opts) == 1 && optNbDigits(opts[0]) > 0 ==> len(result) == optNbDigits(opts[0]) && fresh(result)
+//@   ensures @nbdigits-bool len(opts) == 1 && optNbDigits(opts[0]) > 0 ==> allBool(result)
+//@   ensures @nbdigits-sum len(opts) == 1 && optNbDigits(opts[0]) > 0 ==> bsum(result) == ival(den(v))
+//@   ensures @nbdigits-fits len(opts) == 1 && optNbDigits(opts[0]) > 0 ==> fits(ival(den(v)), optNbDigits(opts[0]))
+
+// ---- fromBinary / FromBinary: sum_k digits[k]*2^k as a field element; without options every digit is forced boolean.
+//@ contract fromBinary
+//@   props C05
+//@   assigns api
+//@   requires api != nil
+//@   ensures @sum den(result) == fsum(digits, len(digits)) && stable(result)
+//@   ensures @bool len(opts) == 0 ==> forall k int :: 0 <= k && k < len(digits) ==> isBool(den(digits[k]))
+//@   loop 1 invariant @no-opts rangeindex < 0 ==> !cfg.UnconstrainedInputs
+//@   loop 2 invariant @acc 0 <= i && i <= len(digits) && c != nil && *c == pow2(i) && den(Σbi) == fsum(digits, i) && stable(Σbi)
+//@   loop 2 invariant @bits !cfg.UnconstrainedInputs ==> forall k int :: 0 <= k && k < i ==> isBool(den(digits[k]))
+//@   loop 2 lemma @fsum0 fsum(digits, 0) == f0
+//@   loop 2 lemma @unfold fsum(digits, i + 1) == fadd(fsum(digits, i), fmul(ofInt(pow2(i)), den(digits[i])))
+
+//@ contract FromBinary
+//@   props C05
+//@   assigns api
+//@   requires api != nil
+//@   lemma @all-bool (forall k int :: 0 <= k && k < len(digits) ==> isBool(den(digits[k]))) ==> allBool(digits)
+//@   lemma @int-sum allBool(digits) ==> fsum(digits, len(digits)) == ofInt(bsum(digits))
+//@   ensures @sum len(opts) == 0 ==> stable(result) && allBool(digits) && den(result) == ofInt(bsum(digits))
